@@ -35,7 +35,13 @@ def rand_text(rng, mx=8, allow_empty=False):
             return t
 
 
+TRICKY = [b"%41", b"a%2f", b"%25", b"50%", b"%zz", b"%2541", b"x%3A%40", b"%%", b"%2F%2f", b"a+b", b"%e2%82%ac"]
+
+
 def rand_text1(rng, mx=8, allow_empty=False):
+    if rng.random() < 0.12:
+        # values that LOOK percent-encoded after one decoding: a second decoding would change them
+        return rng.choice(TRICKY)
     n = rng.randint(0 if allow_empty else 1, mx)
     alphabet = [ord(c) for c in UNRESERVED] + [0x20, 0x2F, 0x3A, 0x40, 0x3F, 0x23, 0x25, 0x26, 0x3D, 0x2B, 0x5B]
     bs = bytearray()
@@ -218,7 +224,7 @@ FIXED = [
     "amqp://h?channel_max=65536", "amqp://h?connection_timeout=18446744073709551615", "amqp://h?connection_timeout=18446744073709551616",
     "amqp:foo", "amqp:/foo", "mailto:x@y", "http://h/", "file:///x", "notaurl", "", "amqp://h:99999/", "amqp://[::1", "amqp://%gg@h/",
     "amqp://us%65r:p%40ss@[::1]:99/v%2fh?heartbeat=+5", "amqp://h/%", "amqp://h/%2", "amqp://h/%zz%41", "AMQP://H/", "amqp://h?=1", "amqp://h?heartbeat",
-    "amqp://h?heartbeat=%35", "amqp://h/?", "amqp://h#frag", "amqp://h/v#frag?heartbeat=1", "amqp://u:p:q@h/", "amqp://u@@h/",
+    "amqp://h?heartbeat=%35", "amqp://h/a%2541", "amqp://h/%252f", "amqp://%2541:%2542@h/", "amqp://h?connection_timeout=0", "amqp://h?connection_timeout=5&connection_timeout=0", "amqp://h/?", "amqp://h#frag", "amqp://h/v#frag?heartbeat=1", "amqp://u:p:q@h/", "amqp://u@@h/",
 ]
 
 
